@@ -245,6 +245,19 @@ def build_world(ck, work, quick):
             ops.append(Op(new_id(), "mod", "path", b"cwd song.mod", None, None, "fail", nm, 22, "module in the current directory"))
             shutil.copy(os.path.join(moddir, base + b".flt"), os.path.join(wb, b"cwd.flt"))
             ops.append(Op(new_id(), "flt", "path", b"cwd.flt", None, None, "fail", [], 0, "module in the current directory"))
+            # Startrekker module whose path does not fit flt_load's filename[1024]: directory part of 1030 bytes
+            longdir = b"/".join([b"d" * 200] * 4 + [b"e" * 225])
+            os.makedirs(os.path.join(wb, longdir))
+            shutil.copy(os.path.join(moddir, base + b".flt"), os.path.join(wb, longdir, b"m.flt"))
+            # the file a truncated name reaches (outside the module directory), made to look like a synth file
+            open(os.path.join(wb, (longdir + b"/m.flt")[:1023]), "wb").write(b"ST1.2 ModuleINFO" + bytes(3000))
+            for e in entries:
+                ops.append(Op(new_id(), "flt", e, longdir + b"/m.flt", None, None, "fail", [], 0, "module path longer than 1020 bytes"))
+            # ... and one that just fits (1020 bytes)
+            fitdir = b"/".join([b"f" * 200] * 4 + [b"g" * (1020 - 804 - 6)])
+            os.makedirs(os.path.join(wb, fitdir))
+            shutil.copy(os.path.join(moddir, base + b".flt"), os.path.join(wb, fitdir, b"m.flt"))
+            ops.append(Op(new_id(), "flt", "path", fitdir + b"/m.flt", None, None, "fail", [], 0, "module path of exactly 1020 bytes"))
     return ops
 
 
@@ -300,6 +313,9 @@ def judge(op, phase, calls, tmpdir, model):
             if not ok:
                 if p is not None and b"(null)" in p:
                     sig = "open:%s:null-path" % fmt
+                elif p is not None and entry == "path" and len(p) < len(modpath) + 3 and (modpath + b".NT").startswith(p[:len(modpath)]) \
+                        and len(modpath) + 3 >= 1024:
+                    sig = "open:%s:truncated-path" % fmt
                 elif entry != "path" and ins is None:
                     sig = "open:%s:stream-entry" % fmt
                 else:
@@ -394,6 +410,15 @@ def model_queries(ops, work):
         if op.fmt == "mfp":
             lines.append("mfp " + mp)
             idx.append((op.id, "mfp"))
+        if op.fmt in ("mod", "stm"):
+            # what the song-only loaders should open for every sample name (instrument order)
+            ins = op.ctxins if op.ctxins is not None else op.envins
+            dirname = op.modpath[:op.modpath.rfind(b"/") + 1] if op.entry == "path" else None
+            d1 = "none" if ins is None else "%s %s" % (hx(ins), listing(ins))
+            d2 = "none" if dirname is None else "%s %s" % (hx(dirname), listing(dirname))
+            for nm in op.names:
+                lines.append("ext 4096 %s %s %s" % (hx(copy_adjust(nm, op.name_len)), d1, d2))
+                idx.append((op.id, "ext"))
     return lines, idx
 
 
@@ -447,6 +472,11 @@ def run_opens(ck):
                     f = ans.split(" ")
                     if what == "decision":
                         model.setdefault(oid, {})[what] = (f[0], [unhex(x) for x in f[1:]])
+                    elif what == "ext":
+                        if f[0] == "1":
+                            model.setdefault(oid, {}).setdefault("ext", []).append(unhex(f[1]))
+                        else:
+                            model.setdefault(oid, {}).setdefault("ext", [])
                     else:
                         model.setdefault(oid, {})[what] = [unhex(x) for x in f[1:]]
             if mo is None:
@@ -475,13 +505,14 @@ def run_opens(ck):
                     if ret == 0:
                         bump("loads_ok")
                     for sig, what in viol:
+                        what = what if len(what) < 700 else what[:340] + " ... " + what[-340:]
                         ck.violation(sig, {"op": op.describe(), "phase": phase, "return": ret,
                                            "calls": [[c[0]] + [unhex(a) for a in c[1:]] for c in calls][:60],
                                            "how": "python3 tools/check.py C10 --replay <this file> rebuilds the file set and re-runs the operation"},
                                      what)
                     # correspondence: companions
                     if mo is not None and phase == "load" and not viol:
-                        if op.fmt in ("flt", "mfp"):
+                        if op.fmt in ("flt", "mfp") and len(op.modpath) + 3 < 1024:
                             want = m.get(op.fmt, [])
                             seen = [p for p in obs["opened"]]
                             # the library stops at the first name that opens
@@ -496,6 +527,17 @@ def run_opens(ck):
                                 corr.append("%s companions: library opened %r, model says %r" % (op.fmt, seen, exp))
                             else:
                                 ck.cov["traces_validated_against_impl"] += 1
+                        elif op.fmt in ("mod", "stm") and ret == 0:
+                            seen = [c for c in calls if c[0] == "fopen"]
+                            seen = [unhex(c[1]) for c in seen if unhex(c[1]) != op.modpath or op.entry != "path"]
+                            if op.entry == "path" and seen and seen[0] == op.modpath:
+                                seen = seen[1:]
+                            want = m.get("ext", [])
+                            if seen != want:
+                                corr.append("sample files: library opened %r, model (externalSamplePath per name) says %r" % (seen, want))
+                            else:
+                                ck.cov["traces_validated_against_impl"] += 1
+                                bump("sample_lookups_compared", len(op.names))
                         elif m.get("decision") is not None:
                             ck.cov["traces_validated_against_impl"] += 1
                     for c in corr:
